@@ -16,6 +16,7 @@ def build(spec_files=None, contract_files=None):
     lib.install(w)
     contracts.install(w)
     w.spec_errors = {}
+    w.wf = specs.WfSym(w)
     if spec_files is None:
         spec_files = sorted(glob.glob(os.path.join(ROOT, "spec", "*.py")))
     all_specs = []
